@@ -4,5 +4,6 @@ set -e
 cd "$(dirname "$0")/.."
 export CARGO_NET_OFFLINE=true
 (cd lean && lake build)
+ln -sfn "${PXV_REPO:-/repo}" .repo
 (cd harness && cargo build -p rt)
 echo setup-ok
